@@ -292,7 +292,7 @@ class C02(WithEL):
             "(sim: run to exhaustion with >= 8 executed events)")
     force_cfg = {"hasMob": False, "duration": None, "maxIter": None, "hasTimer": True, "failRate": fbits(0.0),
                  "defaultRange": fbits(1.0e6)}
-    profile = {"w": {"setTimer": 5, "cancelTimer": 0, "send": 3, "broadcast": 2, "goto": 0, "setSpeed": 0,
+    profile = {"w": {"setTimer": 5, "cancelTimer": 0.6, "send": 3, "broadcast": 2, "goto": 0, "setSpeed": 0,
                      "setRange": 0, "gotoGeo": 0}}
     drive = None       # blocking start, or stepped (then an external controller may act between steps)
 
@@ -395,6 +395,14 @@ class C02(WithEL):
         for (n, m), v in got.items():
             if v > sent[m]:
                 fails.append(("C02:duplicate-or-invented", f"message {m} handled {v} times on node {n}, sent {sent[m]} times"))
+        if completed(case, impl) and case["cfg"]["duration"] is None and case["cfg"]["maxIter"] is None:
+            # nothing is lost: a run that ended by exhaustion made the callback of every accepted timer request
+            # whose (node, name) was never cancelled in the whole run
+            cancelled = {(c["n"], req[1]) for c in cbs for req, ok, _ in c["reqs"] if req[0] == "cancelTimer"}
+            for k, v in acc_t.items():
+                if (k[0], k[1]) not in cancelled and fired[k] < v:
+                    fails.append(("C02:lost", f"timer {k} was accepted {v} times and never cancelled, but fired {fired[k]} "
+                                  f"times in a run that ended by exhaustion"))
         if completed(case, impl) and case["cfg"]["handlers"]:
             executed = len(afters(impl["trace"]))
             expected = sum(acc_t.values()) + sum(got.values())
